@@ -26,6 +26,8 @@ pub enum FSet {
     IpOTpl { id: u16, field_count: u16, scope_count: u16, fields: Vec<FTplField>, pad: Vec<u8> },
     IpData { vals: Vec<FVal>, pad: Vec<u8> },
     IpOData { vals: Vec<FVal>, pad: Vec<u8> },
+    /// a variant of the library's set enum that did not exist when this was written
+    Other(String),
 }
 
 #[derive(PartialEq, Debug, Clone)]
@@ -47,6 +49,8 @@ pub fn fv_of(v: &FieldValue) -> FV {
             DataNumber::U64(x) => FV::U64(*x),
             DataNumber::U128(x) => FV::U128(*x),
             DataNumber::I32(x) => FV::I32(*x),
+            #[allow(unreachable_patterns)]
+            other => FV::Other(format!("{:?}", other)),
         },
         FieldValue::Float64(f) => FV::F64(f.to_bits()),
         FieldValue::Duration(d) => FV::Dur(d.as_secs(), d.subsec_nanos()),
@@ -56,6 +60,9 @@ pub fn fv_of(v: &FieldValue) -> FV {
         FieldValue::Vec(v) => FV::Vec(v.clone()),
         FieldValue::ProtocolType(p) => FV::Proto(proto_number(*p)),
         FieldValue::Unknown(v) => FV::Unknown(v.clone()),
+        // a value kind this simulator was not written for: equal to nothing the model predicts
+        #[allow(unreachable_patterns)]
+        other => FV::Other(format!("{:?}", other)),
     }
 }
 
@@ -134,6 +141,8 @@ pub fn flat_v9(p: &v9::V9) -> FPkt {
                         v9::ScopeDataField::LineCard(b) => (3, b.clone()),
                         v9::ScopeDataField::NetFlowCache(b) => (4, b.clone()),
                         v9::ScopeDataField::Template(b) => (5, b.clone()),
+                        #[allow(unreachable_patterns)]
+                        other => (0xffff, format!("{:?}", other).into_bytes()),
                     })
                     .collect(),
                 opts: d
@@ -143,6 +152,9 @@ pub fn flat_v9(p: &v9::V9) -> FPkt {
                     .collect(),
                 pad: d.padding.clone(),
             },
+            // a set kind this simulator was not written for: equal to nothing the model predicts
+            #[allow(unreachable_patterns)]
+            other => FSet::Other(format!("{:?}", other)),
         };
         sets.push((fs.header.flowset_id, fs.header.length, s));
     }
@@ -195,6 +207,9 @@ pub fn flat_ipfix(p: &ipfix::IPFix) -> FPkt {
             ipfix::FlowSetBody::OptionsData(d) => {
                 FSet::IpOData { vals: ip_vals(&d.fields), pad: d.padding.clone() }
             }
+            // a set kind this simulator was not written for: equal to nothing the model predicts
+            #[allow(unreachable_patterns)]
+            other => FSet::Other(format!("{:?}", other)),
         };
         sets.push((fs.header.header_id, fs.header.length, s));
     }
